@@ -14,6 +14,7 @@ S  (a) the traces of the implementation alone: every task executed exactly once,
        bitwise comparison of every mjModel array and of the mj_saveModel byte stream.
 """
 import itertools
+import os
 import re
 
 from checks import common
@@ -188,7 +189,10 @@ def run(ctx):
                 "with 0-6 procedural meshes and 0-8 builtin textures; a case is distinct by its full text; non-trivial = accepted op")
     ctx.lean_props(THEOREMS)
     drv = ctx.driver("drv_c33")
-    pool = ctx.harness("harness/cc/c33_pool.cc", "c33_pool", link_lib=False, deps=["harness/cc/c33_sched_shim.h"])
+    # the harness TU #includes the tree's user_threadpool.cc: it is part of the cache key
+    pool = ctx.harness("harness/cc/c33_pool.cc", "c33_pool", link_lib=False,
+                       deps=["harness/cc/c33_sched_shim.h", os.path.join(common.REPO, "src/user/user_threadpool.cc"),
+                             os.path.join(common.REPO, "src/user/user_threadpool.h")])
     comp = ctx.harness("harness/cc/c33_compile.cc", "c33_compile", deps=["harness/mjbuild.h"])
     # ---- T + S(a): the thread pool
     if drv and pool:
